@@ -349,10 +349,29 @@ def length_loop(ctx):
         roles = {}
         args = [Ptr('in', 0), num, Ptr('stop', 0)]
 
+        # index form (a position counter instead of a walked pointer and a shrinking count): a first run with anonymous counters tells
+        # which zero-initialised counter is the position - the one the decoder's pointer argument is formed from
+        loops_ = fn.loops()
+        hphis = [i for i in loops_[0][0].instrs if i.op == 'phi'] if len(loops_) == 1 else []
+        pos_phi = None
+        if hphis and not any(p_.ty.is_ptr for p_ in hphis):
+            d0 = LenDom()
+            looptx.transformer(fn, lambda n: None, args, d0, lambda ph, init: d0.sym('u_' + ph.res, integer=True))
+            used = set()
+            for c_ in getattr(d0, 'calls', []):
+                if isinstance(c_[0], Ptr):
+                    used |= set(str(x) for x in sp.sympify(c_[0].off).free_symbols)
+            cands = [p_.res for p_ in hphis if ('u_' + p_.res) in used]
+            if len(cands) == 1:
+                pos_phi = cands[0]
+
         def bind(ph, init):
             if ph.ty.is_ptr:
                 roles['p'] = ph.res
                 return Ptr(init.base, dom.sym('o', integer=True))
+            if ph.res == pos_phi:
+                roles['pos'] = ph.res
+                return dom.sym('o', integer=True)
             if init == num:
                 roles['n'] = ph.res
                 return dom.sym('k', integer=True)
@@ -362,16 +381,28 @@ def length_loop(ctx):
             roles['d'] = ph.res
             return dom.sym('dprev', integer=True)
         tx = looptx.transformer(fn, lambda n: None, args, dom, bind)
-        if not {'p', 'n', 'len'} <= set(roles) or len(tx.backs) != 1:
+        indexed = 'pos' in roles
+        if not ({'p', 'n', 'len'} <= set(roles) or {'pos', 'len'} <= set(roles)) or len(tx.backs) != 1:
             raise Unsupported('loop does not have the (cursor, remaining, count) shape: %s' % roles)
         s1, nv = tx.backs[0]
         dsym = tx.sym[roles['d']] if 'd' in roles else dom.sym('d', integer=True, nonnegative=True)
-        o = tx.sym[roles['p']].off
         probs = []
-        if not (isinstance(nv[roles['p']], Ptr) and alg.is_zero(sp.sympify(nv[roles['p']].off) - o - dsym)):
-            probs.append('cursor advances by %s, expected the reported length' % sp.expand(sp.sympify(nv[roles['p']].off) - o))
-        if not alg.is_zero(nv[roles['n']] - (tx.sym[roles['n']] - dsym)):
-            probs.append('remaining count becomes %s, expected num - reported length' % nv[roles['n']])
+        if indexed:
+            o = tx.sym[roles['pos']]
+            rem_cur, off_next = num - o, sp.sympify(nv[roles['pos']])
+            rem_next = num - off_next
+            off_init = sp.sympify(tx.init[roles['pos']])
+        else:
+            o = tx.sym[roles['p']].off
+            rem_cur = tx.sym[roles['n']]
+            off_next = sp.sympify(nv[roles['p']].off) if isinstance(nv[roles['p']], Ptr) else None
+            rem_next = nv[roles['n']]
+            ip_ = tx.init[roles['p']]
+            off_init = sp.sympify(ip_.off) if isinstance(ip_, Ptr) and ip_.base == 'in' else None
+        if off_next is None or not alg.is_zero(off_next - o - dsym):
+            probs.append('cursor advances by %s, expected the reported length' % (sp.expand(off_next - o) if off_next is not None else '?'))
+        if not alg.is_zero(rem_next - (rem_cur - dsym)):
+            probs.append('remaining count becomes %s, expected num - reported length' % rem_next)
         if not alg.is_zero(nv[roles['len']] - tx.sym[roles['len']] - 1):
             probs.append('length becomes %s, expected length + 1' % nv[roles['len']])
         g = [c for c in s1.pc if isinstance(c, alg.Cond)]
@@ -386,13 +417,13 @@ def length_loop(ctx):
         if 'd' in roles:
             if len(calls) != 2 or not on(calls[0], 0, num):
                 probs.append('first decoder call is on %s, expected (ptr, num)' % (calls[:1],))
-            if not calls or not on(calls[-1], nv[roles['p']].off, nv[roles['n']]):
+            if not calls or not on(calls[-1], off_next, rem_next):
                 probs.append('decoder is called on (%s, %s), expected (cursor, remaining)' % (calls[-1][0], calls[-1][1]) if calls else 'decoder is not called')
         else:
-            if len(calls) != 1 or not on(calls[0], o, tx.sym[roles['n']]):
+            if len(calls) != 1 or not on(calls[0], o, rem_cur):
                 probs.append('decoder is called on %s, expected (cursor, remaining)' % (calls,))
-        if not isinstance(tx.init[roles['p']], Ptr) or tx.init[roles['p']].base != 'in' or not alg.is_zero(sp.sympify(tx.init[roles['p']].off)):
-            probs.append('cursor starts at %r' % (tx.init[roles['p']],))
+        if off_init is None or not alg.is_zero(off_init):
+            probs.append('cursor starts at %r' % (tx.init[roles['pos' if indexed else 'p']],))
         # behind the loop: the count is returned and *stop (when given) receives the cursor position
         L = tx.sym[roles['len']]
         if not tx.finals:
@@ -414,7 +445,7 @@ def length_loop(ctx):
             rep.bad('U5', 'a_utf_length', '; '.join(sorted(set(probs))), loc=loc, key='a_utf_length: loop')
         else:
             rep.ok('U5', 'a_utf_length', 'advances cursor and remaining count by exactly the reported length, counts one per sequence, stops at the first 0',
-                   loc=loc, sample={'cursor': str(nv[roles['p']].off), 'remaining': str(nv[roles['n']])})
+                   loc=loc, sample={'cursor': str(off_next), 'remaining': str(rem_next)})
     except Unsupported as e:
         rep.unk('U5', 'a_utf_length', str(e))
 
@@ -474,19 +505,42 @@ def lead_loop(ctx, lk):
         dom = bit.Bit()
         roles = {}
 
+        NUM, O, L = Lin.sym('num', 64), Lin.sym('o', 64), Lin.sym('L', 64)
+        loops_ = fn.loops()
+        hphis = [i for i in loops_[0][0].instrs if i.op == 'phi'] if len(loops_) == 1 else []
+        indexed = len(hphis) == 2 and not any(p_.ty.is_ptr for p_ in hphis)
+        cursor_phi = None
+        if indexed:
+            # index form  str[pos]: a first run with anonymous counters tells which of the two is the position (the one the byte is read at)
+            d0 = bit.Bit()
+            tx0 = looptx.transformer(fn, lk, [Ptr('in', 0), NUM], d0, lambda ph, init: Lin.sym('u_' + ph.res, 64))
+            used = set()
+            for k in tx0.interp.entry_syms:
+                if k[0] == 'in':
+                    used |= set(str(t_[0][1]) for t_ in (k[1][2] if isinstance(k[1], tuple) and len(k[1]) == 3 else ()) if isinstance(t_[0], tuple))
+            cands = [p_.res for p_ in hphis if ('u_' + p_.res) in used]
+            if len(cands) != 1:
+                raise Unsupported('loop does not have the (cursor, count) shape')
+            cursor_phi = cands[0]
+
         def bind(ph, init):
             if ph.ty.is_ptr:
                 roles['p'] = ph.res
                 return Ptr('in', Off(0, [(('lin', 'o'), 1)]))
+            if ph.res == cursor_phi:
+                roles['p'] = ph.res
+                return O
             roles['len'] = ph.res
             return Lin.sym('L', 64)
-        NUM, O, L = Lin.sym('num', 64), Lin.sym('o', 64), Lin.sym('L', 64)
         tx = looptx.transformer(fn, lk, [Ptr('in', 0), NUM], dom, bind)
         if set(roles) != {'p', 'len'} or len(tx.phis) != 2:
             raise Unsupported('loop does not have the (cursor, count) shape')
         probs = []
         ip = tx.init[roles['p']]
-        if not (isinstance(ip, Ptr) and ip.base == 'in' and ip.off == 0):
+        if indexed:
+            if dom.concrete(ip) != 0:
+                probs.append('position starts at %r' % (ip,))
+        elif not (isinstance(ip, Ptr) and ip.base == 'in' and ip.off == 0):
             probs.append('cursor starts at %r' % (ip,))
         if dom.concrete(tx.init[roles['len']]) != 0:
             probs.append('count starts at %r' % (tx.init[roles['len']],))
@@ -543,7 +597,9 @@ def lead_loop(ctx, lk):
                 if _eval_pc(s_.pc_raw, env):
                     np_ = nv[roles['p']]
                     adv = None
-                    if isinstance(np_, Ptr) and np_.base == 'in' and isinstance(np_.off, Off) and dict(np_.off.t).get(('lin', 'o')) == 1:
+                    if indexed and isinstance(np_, Lin) and dict(np_.t) == {'o': 1}:
+                        adv = np_.c
+                    elif isinstance(np_, Ptr) and np_.base == 'in' and isinstance(np_.off, Off) and dict(np_.off.t).get(('lin', 'o')) == 1:
                         # cursor + constant, possibly + a term computed from the lead byte (a width selected without a branch)
                         adv = np_.off.c
                         for key, scale in np_.off.t:
